@@ -11,7 +11,7 @@ LEVEL = "exploration"
 WORKERS = {"quick": 8, "thorough": 16}
 BUDGET = {"quick": 150, "thorough": 420}
 MIN_NONTRIVIAL = {"quick": 1500, "thorough": 25000}
-REQUIRED_HOOKS = ["absorbed-error-form", "long-container-form", "evaluate:I", "evaluate:C", "isinstance", "type-eq", "dunder-result-class"]
+REQUIRED_HOOKS = ["accessor-form", "retyped-reuse", "absorbed-error-form", "long-container-form", "evaluate:I", "evaluate:C", "isinstance", "type-eq", "dunder-result-class"]
 RULE = (
     "Well-typed expressions from the type-directed generator (every operator, function, macro, conversion and accessor at the root and nested, static type known) "
     "are evaluated under both runners and observed two ways: (1) the class of the value handed back to the caller must be the library class for the static "
@@ -259,12 +259,86 @@ LONG_FORMS = [
 ]
 
 
+# every accessor of timestamps AND durations (the class of the result is asserted here whatever the number is), on literals and on results
+# of arithmetic, with and without a time-zone argument
+ACCESSOR_FORMS = (
+    [(f"timestamp('2009-02-13T23:31:30.250Z').{a}({z})", "int", a) for a in ("getFullYear", "getMonth", "getDate", "getDayOfMonth", "getDayOfWeek", "getDayOfYear", "getHours", "getMinutes", "getSeconds", "getMilliseconds") for z in ("", "'-08:00'", "'Asia/Kolkata'")]
+    + [(f"{d}.{a}()", "int", "duration." + a) for a in ("getHours", "getMinutes", "getSeconds", "getMilliseconds") for d in ("duration('1s')", "duration('3723.004s')", "duration('-90m')", "(duration('1h') + duration('1.5s'))", "(timestamp('2009-02-13T23:31:30Z') - timestamp('2009-02-13T20:00:00.5Z'))", "d")]
+    + [("(t + d).getSeconds()", "int", "getSeconds"), ("(t - duration('1s')).getMilliseconds()", "int", "getMilliseconds"), ("[d].map(x, x.getMilliseconds())", ("list", "int"), "duration.getMilliseconds"), ("d.getSeconds() + d.getMilliseconds()", "int", "+")]
+)
+ACCESSOR_ENV = {"d": ("dur", 3723004000), "t": ("ts", 1234567890250000)}
+
+# one program, evaluated against activations that give the SAME names values of ANOTHER type each time (a program is compiled once and used
+# for whatever the host binds): the class of every result must follow the operands of THAT evaluation
+RETYPE_VALUES = {
+    "int": (("int", 7), ("int", 2)), "uint": (("uint", 7), ("uint", 2)), "double": (("double", 7.5), ("double", 2.0)), "string": (("string", "ab"), ("string", "c")),
+    "bytes": (("bytes", b"ab"), ("bytes", b"c")), ("list", "int"): (("list", (("int", 1),)), ("list", (("int", 2), ("int", 3)))),
+}
+NUM3, ALL6 = ["int", "uint", "double"], ["int", "uint", "double", "string", "bytes", ("list", "int")]
+RETYPE_FORMS = [
+    ("x + y", ALL6, lambda t: t), ("x - y", NUM3, lambda t: t), ("x * y", NUM3, lambda t: t), ("x / y", NUM3, lambda t: t), ("x % y", ["int", "uint"], lambda t: t), ("-x", ["int", "double"], lambda t: t),
+    ("x > y ? x : y", ["int", "uint", "double", "string"], lambda t: t), ("[x, y][1]", ALL6, lambda t: t), ("{'k': x}.k", ALL6, lambda t: t), ("[x].map(e, e + y)", ALL6, lambda t: ("list", t)),
+    ("[x, y].filter(e, e == x)", ALL6, lambda t: ("list", t)), ("x + y + x", ALL6, lambda t: t), ("(x - y) * y + x", NUM3, lambda t: t), ("[x + y, x]", ALL6, lambda t: ("list", t)), ("x == y ? y : x + y", ALL6, lambda t: t),
+]
+
+
+def retyped_reuse(acc, ctx):
+    c = core.celpy()
+    k = 0
+    for src, types, result_type in RETYPE_FORMS:
+        for rot in range(len(types)):
+            k += 1
+            if not ctx.mine(k):
+                continue
+            order = types[rot:] + types[:rot]
+            order = order + order[:2]  # every type is also met again after the others
+            for r in "IC":
+                try:
+                    env = c.Environment(runner_class=core.runner_class(r))
+                    prog = env.program(env.compile(src))
+                except Exception:
+                    continue
+                for step, t in enumerate(order):
+                    xv, yv = RETYPE_VALUES[t]
+                    benv = {"x": xv, "y": yv}
+                    acc.hook("evaluate:" + r)
+                    acc.hook("retyped-reuse")
+                    acc.evaluations += 1
+                    try:
+                        out = ["V", core.canon(prog.evaluate(MV.cel_env(benv)))]
+                    except c.CELEvalError:
+                        out = ["E"]
+                    except Exception as ex:
+                        out = ["X", type(ex).__name__]
+                    want_t = result_type(t)
+                    if step:
+                        acc.nt([src, r, "retyped", [core.jkey(x) for x in order[: step + 1]]])
+                    errs = class_errors(out[1], want_t) if out[0] == "V" else [("result", out[0] + (":" + out[1] if out[0] == "X" else ""), static_class(want_t))]
+                    acc.cell("retyped-reuse", r, "step%d" % min(step, 3), static_class(want_t), "ok" if not errs else "wrong-class")
+                    if errs:
+                        pth, oc, ec = errs[0]
+                        fresh = core.api_eval(r, src, MV.cel_env(benv))
+                        fresh_ok = fresh[0] == "V" and not class_errors(fresh[1], want_t)
+                        acc.violation(
+                            f"{r} program-reuse operand-types-changed {'only-after-earlier-evaluations' if fresh_ok else 'also-on-a-fresh-program'} {pth} is {oc} not {ec}",
+                            f"{'interpreted' if r == 'I' else 'compiled'}: evaluation #{step + 1} of one program {src!r} with {static_class(t)} operands (earlier: {[static_class(x) for x in order[:step]]}) returned {oc} at {pth}, expected {ec}",
+                            {"src": src, "runner": r, "mode": "retyped", "order": [core.jkey(x) for x in order[: step + 1]]},
+                        )
+                        break
+    acc.exhaustive.append("%d forms x every rotation of their operand types, one program per runner evaluated through the whole rotation" % len(RETYPE_FORMS))
+
+
 def run(ctx):
     acc = ctx.acc
     rnd = ctx.rnd
     core.celpy()
     mon = DunderMonitor(acc)
     mon.install()
+    for i, (src, t, shape) in enumerate(ACCESSOR_FORMS):
+        if ctx.mine(i):
+            acc.hook("accessor-form")
+            check_src(acc, src, t, ACCESSOR_ENV, "accessor", shape)
+    retyped_reuse(acc, ctx)
     for i, (src, t, shape) in enumerate(ABSORBED):
         if ctx.mine(i):
             acc.hook("absorbed-error-form")
@@ -326,6 +400,22 @@ def replay(case):
         return True, "dunder events are re-observed by re-running the check"
     import json
 
+    if case.get("mode") == "retyped":
+        global RETYPE_FORMS
+        acc = core.Acc()
+
+        class C:
+            def mine(self, k):
+                return True
+
+        saved = RETYPE_FORMS
+        RETYPE_FORMS = [f for f in saved if f[0] == case["src"]]
+        try:
+            retyped_reuse(acc, C())
+        finally:
+            RETYPE_FORMS = saved
+        mine = [v for v in acc.violations if v["case"].get("runner") == case["runner"]] if acc.violations and "case" in acc.violations[0] else acc.violations
+        return not mine, "\n".join(v["what"] for v in mine[:3]) or f"{case['src']!r}: every evaluation of the reused program returned the class of its operands"
     t = json.loads(case["type"])
     t = tuple(t) if isinstance(t, list) else t
     benv = MV.cel_env(MV.dec_env(case.get("bindings", {})))
